@@ -1,6 +1,6 @@
 /-
-Helper lemmas and the inductive invariant of the atomic mesh system
-(Model/Mesh.lean) for property C19.
+Helper lemmas and the inductive invariant of the mesh system (the code as it is,
+Model/Mesh.lean, `Ev.real`) for property C19.
 -/
 import MpcVerif.Model.Mesh
 
